@@ -182,6 +182,11 @@ def one_model(ctx, script, spec, rng, solved):
             ma = AM(spec.make(), **{nm: np.asarray(m[nm]).copy() for nm in data_cols})
             dfa = ma.to_dataframe(use_aliases=True, status=False, iterations=False)
             m4 = AM.from_dataframe(dfa)
+            # the extension's own to_dataframe() honours the same flags as the plain one
+            for st, it in itertools.product([True, False], repeat=2):
+                fl = dict(status=st, iterations=it)
+                if not check_frame(ctx, ma.to_dataframe(**fl), ma, list(ma.names), list(ma.span), dict(fl, include_internal=False), 'AliasMixin.to_dataframe', dict(case, flags=fl)):
+                    return
         except Exception as e:
             ctx.violation('import-raises', f'alias-named export / from_dataframe on {spec.kind} raised {type(e).__name__}: {e}', case)
             return
